@@ -778,3 +778,15 @@ MUTANTS += [
 }''')],
      'expect': {'C15': None}},
 ]
+
+MUTANTS += [
+    {'name': 'c11_to_writer_drops_end_byte', 'edits': [(W, '    return binson_write_raw(writer, raw.bptr, raw.bsize);', '    return binson_write_raw(writer, raw.bptr, raw.bsize - 1);')],
+     'expect': {'C11': 'TO-WRITER'}},
+    {'name': 'c11_to_writer_writes_on_failure', 'edits': [(W, '''    if (!binson_parser_get_raw(parser, &raw)) {
+        return false;
+    }''', '''    if (!binson_parser_get_raw(parser, &raw)) {
+        writer->error_flags = BINSON_ERROR_WRONG_TYPE;
+        return false;
+    }''')],
+     'expect': {'C11': 'TO-WRITER'}},
+]
